@@ -449,9 +449,14 @@ func (p *parser) parseArrayLiteral() Node {
 	elements := []Node{}
 	tt := p.cur.TokenType()
 	for tt != lexer.RBRACKET && tt != lexer.EOF {
+		elTok := p.cur
 		n := p.parseExprWSS()
 		if n == nil {
 			return nil // previous error
+		}
+		if n.Type() == NONE_TYPE {
+			p.appendErrorForToken("array element has no value", elTok)
+			return nil
 		}
 		elements = append(elements, n)
 		multi = append(multi, multilineEl)
@@ -548,9 +553,14 @@ func (p *parser) parseMapPairs(mapLit *MapLiteral) bool {
 		p.assertToken(lexer.COLON)
 		p.advance() // advance past COLON
 
+		valTok := p.cur
 		n := p.parseExprWSS()
 		if n == nil {
 			return false // previous error
+		}
+		if n.Type() == NONE_TYPE {
+			p.appendErrorForToken("map value has no value", valTok)
+			return false
 		}
 		mapLit.Pairs[key] = n
 		mapLit.Order = append(mapLit.Order, key)
